@@ -197,7 +197,7 @@ func execHist(h []int, tier string, log io.Writer) explore.BFSOut {
 		return explore.BFSOut{NoExpand: true}
 	}
 	cfg := cs[h[0]]
-	if tier == "quick" && !cfg.Quick {
+	if (tier == "quick" && !cfg.Quick) || !selected(cfg.Name) {
 		return explore.BFSOut{NoExpand: true, Info: map[string]int64{"padding_jobs": 1}}
 	}
 	for _, e := range h[1:] {
